@@ -80,6 +80,8 @@ pub struct Profile {
     /// swarm: each fault group is switched off for the run with this probability
     pub p_swarm_off: u64,
     pub p_perfect: u64,
+    /// bias towards instants that coincide with schedule boundaries (slots, deadlines), +-1 ns
+    pub p_align: u64,
 }
 
 impl Profile {
@@ -126,6 +128,7 @@ impl Profile {
             p_lenient: 800,
             p_swarm_off: 300,
             p_perfect: 50,
+            p_align: 120,
         }
     }
 }
@@ -269,7 +272,7 @@ fn gen_cfg(p: &Profile, rng: &mut Rng) -> Cfg {
         let rto = rto / 1000 * 1000;
         Transport::Unreliable {
             rto_ns: rto.max(1000),
-            gran_ns: *rng.pick(&[1000, MS, MS, 10 * MS, 50 * MS]),
+            gran_ns: *rng.pick(&[1000, MS, MS, 10 * MS, 50 * MS, rto.max(1000), 2 * rto.max(1000)]),
             rm: rng.range(p.rm.0, p.rm.1) as u32,
             rc: rng.range(p.rc.0, p.rc.1) as u32,
         }
@@ -990,12 +993,17 @@ impl<'a> World<'a> {
             let p = self.profile.clone();
             let off = self.swarm_off[SW_TIMER];
             let dd = d;
+            let unit = self.cfg.rc_rm_rto().2.max(1);
             let v = self.src.decide(&format!("timer#{}", n), |rng| {
                 if off {
                     return None;
                 }
                 let x = rng.below(1000);
-                if x < p.p_timer_very_late {
+                if rng.chance(p.p_align, 2000) {
+                    // late by a whole number of RTOs (+-1 ns): the call lands exactly on a later slot or on the deadline
+                    let m = *rng.pick(&[1u64, 2, 3, 4, 6, 8, 12, 16, 24]);
+                    Some(format!("late={}", (unit * m + rng.range(0, 2)).saturating_sub(1).max(1)))
+                } else if x < p.p_timer_very_late {
                     Some(format!("late={}", rng.log_range(SEC, 120 * SEC)))
                 } else if x < p.p_timer_very_late + p.p_timer_late {
                     Some(format!("late={}", rng.log_range(1000, 2 * SEC)))
@@ -1160,11 +1168,28 @@ impl<'a> World<'a> {
             let off_cor = self.swarm_off[SW_CORRUPT];
             let len = bytes.len();
             let deadline_hint = self.deadline_hint();
+            // instants at which the answered transaction retransmits or fails (for boundary-aligned arrivals)
+            let mut boundaries: Vec<u64> = vec![];
+            if bytes.len() >= 20 {
+                let gen = self.gen;
+                if let Some(tx) = self.ledger.txs.iter().rev().find(|t| t.id[..] == bytes[8..20] && t.gen == gen) {
+                    let (rc, rm, _) = self.cfg.rc_rm_rto();
+                    let sch = crate::oracle_tx::schedule(tx.t0, tx.rto_ns, rc, rm);
+                    boundaries = sch.slots.clone();
+                    boundaries.push(sch.deadline);
+                }
+            }
+            let earliest = self.now + delay;
             let v = self.src.decide(&format!("s2c#{}", n), |rng| {
                 let mut parts: Vec<String> = vec![];
                 if !off_net {
                     let x = rng.below(1000);
-                    if !reliable && x < p.p_drop {
+                    let later: Vec<u64> = boundaries.iter().copied().filter(|b| *b > earliest + 1).collect();
+                    if !later.is_empty() && rng.chance(p.p_align, 1000) {
+                        // arrive exactly at (or one nanosecond around) a retransmission slot or the deadline
+                        let b = *rng.pick(&later);
+                        parts.push(format!("delay={}", (b - earliest + rng.range(0, 2)).saturating_sub(1).max(1)));
+                    } else if !reliable && x < p.p_drop {
                         parts.push("drop".to_string());
                     } else if !reliable && x < p.p_drop + p.p_dup {
                         parts.push(format!("dup={} gap={}", rng.range(1, 3), rng.log_range(1000, deadline_hint.max(2000))));
@@ -1574,6 +1599,7 @@ impl<'a> World<'a> {
             }
             let first = k == 0;
             let off = self.swarm_off[SW_APP];
+            let align_unit = self.cfg.rc_rm_rto().2.max(1);
             let v = self.src.decide(&format!("app#{}", k), |rng| {
                 let gap = if first {
                     rng.below(1000)
@@ -1586,6 +1612,11 @@ impl<'a> World<'a> {
                         2 => 600 * SEC - rng.below(SEC),
                         _ => rng.log_range(600 * SEC, 5000 * SEC),
                     }
+                } else if rng.chance(p.p_align, 1000) {
+                    // start this request a whole number of RTOs after the previous one, so that retransmission
+                    // slots and deadlines of concurrent requests coincide (or miss each other by one nanosecond)
+                    let m = *rng.pick(&[1u64, 1, 2, 3, 4, 6, 7, 8, 15]);
+                    (align_unit * m + rng.range(0, 2)).saturating_sub(1)
                 } else {
                     rng.log_range(p.app_gap_ns.0, p.app_gap_ns.1)
                 };
